@@ -30,7 +30,7 @@ QUICK_SPACES = ('rn3', 'ud3', 'rn3w2', 'rn3wa', 'pw_rn2_2', 'pw_ud2_2', 'nest_rn
                 'pr_rn2_rn2_w', 'rn2')
 DER_BASES = ['L1Norm', 'L2NormSquared', 'L2Norm', 'KullbackLeibler', 'IndicatorBox', 'Huber',
              'IndicatorLpUnitBall', 'KullbackLeiblerCrossEntropy']
-DER_KINDS = ['translated', 'leftscal', 'rightscal', 'rightscal_neg', 'rightscal0', 'quadpert',
+DER_KINDS = ['translated', 'leftscal', 'leftscal_half', 'rightscal', 'rightscal_neg', 'rightscal0', 'quadpert',
              'quadpert_a0', 'quadpert_nou', 'scalarsum', 'bregman']
 ELEM_SIGMA = ('L1Norm', 'L2NormSquared')      # documented per-point step sizes
 _SIG = [0.5, 2.0, 1.0, 0.25, 4.0, 1.0, 0.5, 2.0]
